@@ -32,6 +32,7 @@ RULE = (
 ASSUMPTIONS = [
     "dyadic alphabets: (m k)^2 exactly representable so that 'exactly at threshold' has one meaning for code and reference; the reference squares and multiplies in exact rational arithmetic",
     "observable F2_light (EM) for (a),(b); F2/F3 total and light (NC, CC) for (c); grid G6, x in {0.01, 0.2}",
+    "mass reference scales Qmc/Qmb/Qmt equal to the masses; for a sub-lattice 0.75x, 2x the masses and absent (HQ=POLE: the matching scales are (m k)^2 whatever Qm is)",
     "non-monotone matching scales are rejected by the library with ValueError (numpy digitize): counted as rejected, any other outcome there is a violation",
     "beta0 = 11 - 2 n_f / 3 (a_s = alpha_s/4pi normalisation), compared at 1e-12",
 ]
@@ -93,9 +94,17 @@ def _v(st, what, msg):
     return {"fp": fp, "fpkey": {"cls": what, "t": st["t"], "variant": st.get("variant"), "scheme": st.get("scheme", st.get("fns"))}, "msg": msg}
 
 
+def _states_qm(seed):
+    out = []
+    for st in _states_base("thorough", seed):
+        if st["t"] == "zm" and st["variant"] in ("ulp-", "at", "rel-", "rel+") and (st["typ"] == "generic" or st["k"] in (list(DYADIC_K[0]), list(DYADIC_K[1]))):
+            out += [dict(st, qm=q) for q in (0.75, 2.0, "del")]
+    return out
+
+
 def states(tier, seed):
     """quick = the full base lattice; thorough = base lattice + the deep extension."""
-    base = _states_base("thorough", seed)
+    base = _states_base("thorough", seed) + _states_qm(seed)
     if tier == "quick":
         return base
     seen = {digest(s) for s in base}
@@ -122,14 +131,19 @@ def execute(st):
     return {"zm": _zm, "ff": _ff, "beta0": _beta0, "nonmono": _nonmono}[st["t"]](st)
 
 
-def _masses(m, k):
-    return {"mc": m[0], "mb": m[1], "mt": m[2], "kcThr": k[0], "kbThr": k[1], "ktThr": k[2], "Qmc": m[0], "Qmb": m[1], "Qmt": m[2]}
+def _masses(m, k, qm=None):
+    th = {"mc": m[0], "mb": m[1], "mt": m[2], "kcThr": k[0], "kbThr": k[1], "ktThr": k[2], "Qmc": m[0], "Qmb": m[1], "Qmt": m[2]}
+    if qm == "del":  # cards without mass reference scales
+        th.update({"Qmc": "__del__", "Qmb": "__del__", "Qmt": "__del__"})
+    elif qm is not None:  # reference scales different from the (pole) masses: must not move any matching scale
+        th.update({"Qmc": m[0] * qm, "Qmb": m[1] * qm, "Qmt": m[2] * qm})
+    return th
 
 
 def _zm(st):
     nf = ref_nf_zm(st["m"], st["k"], st["Q2"])
     obs = {"F2_light": [cards.kin(x, st["Q2"]) for x in XS]}
-    out, s0 = rel.try_run({"scheme": "ZM-VFNS", "process": "EM", "pto": 1, "theory": _masses(st["m"], st["k"])}, obs)
+    out, s0 = rel.try_run({"scheme": "ZM-VFNS", "process": "EM", "pto": 1, "theory": _masses(st["m"], st["k"], st.get("qm"))}, obs)
     if s0 != "ok":
         return {"violations": [_v(st, "run-failed", f"ZM-VFNS run failed ({s0}) for {st}")], "nontrivial": True, "outcome": s0, "transitions": 1}
     viol = []
